@@ -240,6 +240,9 @@ def fdpass_cases(tier):
             for hdr in ("stack", "heap"):
                 klass = "none" if c < 0 else ("smaller" if c < exact else ("exact" if c in (exact, space) else "larger"))
                 cases.append({"n": n, "ctrl": c, "hdr": hdr, "creds": False, "klass": klass})
+        if n == 0:      # an SCM_RIGHTS message that carries no descriptor at all
+            for c in (-1, 0, 16, 24):
+                cases.append({"n": 0, "ctrl": c, "hdr": "stack", "creds": False, "klass": "larger", "empty_rights": True})
         for c in sorted({32, 48, 32 + exact, 32 + space, 32 + space + 8, 32 + exact - 4 if n else 32}):
             if c % 4 == 0:
                 cases.append({"n": n, "ctrl": c, "hdr": "stack", "creds": True,
